@@ -30,7 +30,7 @@ pub enum Side {
     Cp,
 }
 
-#[derive(Clone, Debug)]
+#[derive(Clone, Debug, Serialize, Deserialize)]
 pub struct ChanCfg {
     pub pv: u32,
     pub anchors: bool,
@@ -367,6 +367,10 @@ fn psbt_with_witscripts(tx: &lightning_signer::bitcoin::Transaction, scripts: &[
 impl Model for ChanModel {
     type Op = Op;
     type State = ChanState;
+
+    fn cfg_json(&self) -> Value {
+        serde_json::to_value(&self.cfg).unwrap()
+    }
 
     fn name(&self) -> String {
         format!(
@@ -1029,6 +1033,10 @@ pub fn explore(tier: Tier, side: Side, monitors: bool, wall_s: f64) -> ChanRun {
 
 pub fn replay_ops(v: &Value) -> Vec<Vio> {
     // model string: chanfsm(pv=6,static,outbound,k=2,Holder)
+    if let Ok(cfg) = serde_json::from_value::<ChanCfg>(v["cfg"].clone()) {
+        let ops: Vec<Op> = serde_json::from_value(v["ops"].clone()).unwrap();
+        return crate::vmc::replay(&ChanModel { cfg }, &ops);
+    }
     let name = v["model"].as_str().unwrap_or("");
     let inner = name.trim_start_matches("chanfsm(").trim_end_matches(')');
     let parts: Vec<&str> = inner.split(',').collect();
